@@ -20,10 +20,11 @@ def bounds(tier):
             'timing_variants': sorted(VARIANTS), 'stamps': 3}
 
 
-def mk(variants, started=None, ended=None, edstart='present', pre_op=False, T=60, tag='', dmax=100000, resend=None):
+def mk(variants, started=None, ended=None, edstart='present', pre_op=False, T=60, tag='', dmax=100000, resend=None,
+       blank_id=None, example=None):
     N = len(variants)
     P = {'N': N, 'variants': list(variants), 'started': started, 'ended': ended, 'edstart': edstart,
-         'pre_op': pre_op, 'resend': resend}
+         'pre_op': pre_op, 'resend': resend, 'blank_id': blank_id}
     sym = [('s%d' % i, 'str') for i in range(N)]
     strs = [n for n, _ in sym]
     pre = str_pre(strs) + distinct(strs)
@@ -48,8 +49,18 @@ def mk(variants, started=None, ended=None, edstart='present', pre_op=False, T=60
         cid += '/dmax%d' % dmax
     if tag:
         cid += '/' + tag
+    if blank_id is not None:
+        cid += '/blank-storyID-%d' % blank_id
+    # concrete anchors use FRACTIONAL durations (the symbolic run uses exact integers, stub S3): the real float()
+    # parsing of "12.5"-style texts is exercised here
+    ex = example
+    if ex is None:
+        ex = {n: 'abcdefgh'[i] for i, (n, t) in enumerate(sym) if t == 'str'}
+        fr = [12.5, 0.25, 7.75, 30.5, 1.125, 3.0, 0.5, 99.875, 2.5, 10.25]
+        for i, (n, t) in enumerate([x for x in sym if x[1] == 'int']):
+            ex[n] = fr[i % len(fr)]
     return Cell(pid=PID, cid=cid, harness='h_access:timing_cell', params=P, sym=sym, pre=pre,
-                stubs=('hash', 'float', 'parse'), timeout=T, cost=len(sym))
+                stubs=('hash', 'float', 'parse'), timeout=T, cost=len(sym), example=ex)
 
 
 def cells(tier):
@@ -85,6 +96,10 @@ def cells(tier):
     out.append(mk(['SD', 'none'], ended=[None, 2], T=T))
     for ed in ('absent', 'blank'):
         out.append(mk(['SD', 'TT', 'MT'], edstart=ed, T=T))
+    # a story whose storyID tag is blank is still a story with a duration, an offset, a start and an end
+    out.append(mk(['SD', 'TT+MT', 'SD'], blank_id=1, T=T, dmax=10000))
+    out.append(mk(['SD', 'MT'], blank_id=1, T=T))
+    out.append(mk(['TT', 'SD'], blank_id=0, edstart='absent', T=T))
     # after a reordering merge the relations hold again
     out.append(mk(['SD', 'TT+MT', 'SD+TT+MT'], pre_op=True, T=T, dmax=100000 if tier == 'thorough' else 10000))
     out.append(mk(['SD', 'MT'], pre_op=True, started=[1, None], T=T))
